@@ -55,7 +55,7 @@ func (t *c16RT) RoundTrip(req *http.Request) (*http.Response, error) {
 	switch {
 	case t.mode == "1":
 		status, body = 400, `{"Code":"InvalidParameter","Message":"injected","RequestId":"R-1","HostId":"h"}`
-	case t.mode == "3": // every attempt of the wrapper's back-off loop is throttled
+	case t.mode == "3", t.mode == "4": // every attempt of the wrapper's back-off loop is throttled (4: there is one only, see call)
 		status, body = 400, `{"Code":"Throttling","Message":"injected","RequestId":"R-1","HostId":"h"}`
 	case action == "CreateNetworkInterface":
 		body = `{"RequestId":"R-1","NetworkInterfaceId":"eni-new","MacAddress":"00:16:3e:00:00:01","PrivateIpAddress":"10.0.0.1","Status":"Available","Type":"Secondary","VSwitchId":"vsw-1","SecurityGroupIds":{"SecurityGroupId":["sg-1"]},"PrivateIpSets":{"PrivateIpSet":[]},"Ipv6Sets":{"Ipv6Set":[]}}`
@@ -92,7 +92,11 @@ type c16API struct {
 }
 
 func newC16API(gen client.IdempotentKeyGen) (*c16API, error) {
-	rt := &c16RT{}
+	return newC16APIOn(&c16RT{}, gen, 1<<30)
+}
+
+// newC16APIOn: perMinute = what the client-side rate limiter allows (its burst; it refills at perMinute/60 per second)
+func newC16APIOn(rt *c16RT, gen client.IdempotentKeyGen, perMinute int) (*c16API, error) {
 	e, err := ecs.NewClientWithAccessKey("cn-hangzhou", "ak", "sk")
 	if err != nil {
 		return nil, err
@@ -106,7 +110,7 @@ func newC16API(gen client.IdempotentKeyGen) (*c16API, error) {
 	e.Domain, f.Domain = "ecs.invalid", "eflo.invalid"
 	lim := map[string]int{}
 	for _, a := range []string{"", "CreateNetworkInterface", "AssignPrivateIpAddresses", "AssignIpv6Addresses", "CreateElasticNetworkInterface"} {
-		lim[a] = 1 << 30
+		lim[a] = perMinute
 	}
 	api, err := client.New(&c16ClientSet{e: e, f: f}, client.FromMap(lim))
 	if err != nil {
@@ -125,6 +129,19 @@ func (a *c16API) call(kind string, p *c16Params, eni string, n int, fail string)
 	bo := wait.Backoff{Steps: 1}
 	if fail == "3" {
 		bo = wait.Backoff{Steps: 3, Duration: time.Millisecond, Factor: 1}
+	}
+	if fail == "4" {
+		// the first attempt is throttled by the cloud, the second never leaves: the client-side rate limiter (one request a minute,
+		// on a client of its own sharing the generator and the transport) cannot admit it before the context's deadline
+		slow, err := newC16APIOn(a.rt, a.api.IdempotentKeyGen, 1)
+		if err != nil {
+			return "", true, err
+		}
+		a = slow
+		bo = wait.Backoff{Steps: 3, Duration: time.Millisecond, Factor: 1}
+		var cancel context.CancelFunc
+		ctx, cancel = context.WithTimeout(ctx, 200*time.Millisecond)
+		defer cancel()
 	}
 	var err error
 	switch kind {
